@@ -75,7 +75,7 @@ def pick_method(rng, fams):
         return rng.choice(IMPLICIT_ADAPT)
     if fam == "richardson":
         base = rng.choice(["RK4Solver", "MidpointSolver", "HeunsSolver", "RK5Solver", "RalstonsSolver", "EulerTrapSolver"])
-        return "Rich:%s:%d" % (base, rng.choice([2, 3, 3, 4, 5]))
+        return "Rich:%s:%d" % (base, rng.choice([2, 3, 3, 4, 5, 5, 6, 7]))
     raise ValueError(fam)
 
 
@@ -188,6 +188,15 @@ def gen_C03(seed):
         scn["events"] = gen_events(r, scn, r.choice([1, 2, 4]), terminal_prob=0.0)
         if "alloc_cap" not in scn["knobs"]:
             scn["knobs"]["alloc_cap"] = r.choice([1, 2, 3])
+    rz_ = sub(seed, "zero_target")
+    if not with_events and not big and rz_.random() < 0.05:
+        # special times: the very first call heads for t = 0 exactly from a non-zero start (0 is what unused buffer rows hold), or the
+        # run starts at t = 0 exactly
+        L_ = abs(s["tf"] - s["t0"])
+        if rz_.random() < 0.7:
+            s["t0"], s["tf"] = round(-direction * L_, 6), 0.0
+        else:
+            s["t0"], s["tf"] = 0.0, round(direction * L_, 6)
     t0, tf = s["t0"], s["tf"]
     L = abs(tf - t0)
     if r.random() < 0.2:
@@ -271,6 +280,24 @@ def gen_C05(seed):
         s["rtol"] = float("%.2e" % (10 ** r.uniform(-8.0, -3.5)))
         s["atol"] = float("%.2e" % (s["rtol"] * 1e-10))
         s["dt"] = float("%.4g" % (L * r.choice([1e-4, 1e-3, 1e-2, 2.0]))) * r.choice([1, 1, -1])
+    ro_ = sub(seed, "overflow")
+    overflow_try = False
+    if not long_decay and method_family(s["method"]) == "explicit_adaptive" and ro_.random() < 0.05:
+        # a first step far beyond anything the pair can take on a super-linear problem: the stages overflow, the error estimate is inf/nan;
+        # the only acceptable outcomes are a (much) smaller retried step or an error
+        overflow_try = True
+        scn["overflow_try"] = True
+        s["method"] = ro_.choice(["RK1412Solver", "RK8713MSolver", "RK108Solver", "DOPRI45", "RK45CKSolver"])
+        span = {"RK1412Solver": 6.0, "RK8713MSolver": 250.0, "RK108Solver": 250.0, "DOPRI45": 300.0, "RK45CKSolver": 2e4}[s["method"]] * ro_.uniform(1.0, 3.0)
+        n_ = ro_.choice([1, 2])
+        prob.clear()
+        prob.update({"family": "logistic", "dtype": "float64", "shape": [n_], "params": {"r": [round(direction * ro_.uniform(0.5, 2.0), 3) for _ in range(n_)]},
+                     "y0": [round(ro_.uniform(0.1, 0.9), 3) for _ in range(n_)]})
+        s["t0"] = 0.0
+        s["tf"] = round(direction * span, 3)
+        L = span
+        s["dt"] = round(span * ro_.uniform(1.0, 3.0), 3) * ro_.choice([1, -1])
+        s["rtol"] = s["atol"] = float("%.2e" % (10 ** ro_.uniform(-9.0, -5.0)))
     ops = [{"op": "integrate"}]
     if r.random() < 0.25:
         mid = round(s["t0"] + direction * L * r.uniform(0.2, 0.8), 6)
@@ -284,7 +311,7 @@ def gen_C05(seed):
         s["atol"] = float("%.2e" % min(1e-2, tight_a * 10 ** rt_.uniform(2.0, 4.0)))
         ops = [{"op": "set", "attr": "rtol", "value": tight_r}, {"op": "set", "attr": "atol", "value": tight_a}] + ops
     scn["ops"] = ops
-    if r.random() < 0.5 and not long_decay:
+    if r.random() < 0.5 and not long_decay and not overflow_try:
         # fault-injecting configuration: transient spikes force rejections
         rf = sub(seed, "faults")
         stages = {"RK1412Solver": 35, "RK108Solver": 17, "RK8713MSolver": 13, "RK45CKSolver": 6, "HeunEulerSolver": 2, "DOPRI45": 7}.get(s["method"], 8)
